@@ -175,6 +175,24 @@ func genDSC(t *rt.Tape, label string, source string, binaries []string, deps dep
 	d.DepFolded = t.Bool(1, 2, label+".depfold")
 	if t.Bool(3, 4, label+".hasbd") {
 		d.BD = genDep(t, deps, label+".bd")
+		if t.Bool(1, 24, label+".hugebd") {
+			// dpkg-source writes Build-Depends as ONE physical line; with a few hundred
+			// relations it passes 4 KiB (and other round buffer sizes).  The relations
+			// drawn above stay at the END of the line, behind those boundaries.
+			var pre mDep
+			for i, n := 0, 120+t.Draw(200, label+".hugebd.n"); i < n; i++ {
+				p := mPoss{Name: fmt.Sprintf("libext%d-dev", i)}
+				switch i % 3 {
+				case 0:
+					p.Op, p.Ver = ">=", fmt.Sprintf("1:%d.0", i)
+				case 1:
+					p.Qual = &archStock[4] // :any
+				}
+				pre = append(pre, mRel{p})
+			}
+			d.BD = append(pre, d.BD...)
+			d.DepFolded = false
+		}
 	}
 	if t.Bool(1, 3, label+".hasbda") {
 		d.BDA = genDep(t, deps, label+".bda")
